@@ -521,7 +521,68 @@ pub fn lock_variants(t: &T) -> Vec<T> {
 }
 
 /// The list of descriptor models for the execution-backed checks.
+/// All fragments (every base type) up to `max_nodes` nodes.
+pub fn all_fragments<Ctx: Cx>(te: &Terms<Ctx>, max_nodes: usize) -> Vec<T> {
+    let mut out = vec![];
+    for (n, lvl) in te.levels.iter().enumerate() {
+        if n > max_nodes {
+            break;
+        }
+        for m in lvl {
+            out.push(walk(m).relabel_distinct());
+        }
+    }
+    out
+}
+
+/// One-hole contexts: the fragment in every child position of every binary / ternary constructor
+/// and of 2- and 3-child thresholds, next to fixed key siblings. Whether a combination is well
+/// typed is decided by `Miniscript::from_ast` when the candidate is built; only B results are kept.
+pub fn in_contexts<Ctx: Cx>(f: &T) -> Vec<T> {
+    let b = |t: T| Box::new(t);
+    let p = || T::Check(b(T::PkK("K8".into())));
+    let q = || T::Check(b(T::PkK("K7".into())));
+    let s = || T::Swap(b(T::Check(b(T::PkK("K6".into())))));
+    let s2 = || T::Swap(b(T::Check(b(T::PkK("K5".into())))));
+    let vp = || T::Verify(b(p()));
+    let x = || f.clone();
+    let cands = vec![
+        T::AndV(b(x()), b(p())),
+        T::AndB(b(x()), b(s())),
+        T::AndB(b(p()), b(x())),
+        T::OrB(b(x()), b(s())),
+        T::OrB(b(p()), b(x())),
+        T::AndV(b(T::OrC(b(x()), b(vp()))), b(q())),
+        T::AndV(b(T::OrC(b(q()), b(x()))), b(p())),
+        T::OrD(b(x()), b(p())),
+        T::OrD(b(p()), b(x())),
+        T::OrI(b(x()), b(p())),
+        T::OrI(b(p()), b(x())),
+        T::AndOr(b(x()), b(p()), b(q())),
+        T::AndOr(b(p()), b(x()), b(q())),
+        T::AndOr(b(p()), b(q()), b(x())),
+        T::Thresh(1, vec![x(), s()]),
+        T::Thresh(2, vec![x(), s()]),
+        T::Thresh(1, vec![p(), x()]),
+        T::Thresh(2, vec![p(), x()]),
+        T::Thresh(2, vec![x(), s(), s2()]),
+        T::Thresh(2, vec![p(), x(), s2()]),
+        T::Thresh(1, vec![p(), s(), x()]),
+    ];
+    cands
+        .into_iter()
+        .filter(|t| match crate::ast::build::<String, Ctx>(t, &crate::ast::StrEnv) {
+            Ok(ms) => ms.ty.corr.base == miniscript::miniscript::types::Base::B,
+            Err(_) => false,
+        })
+        .collect()
+}
+
 pub fn descriptor_models(u: &Universe, n_seg: usize, n_shwsh: usize, n_leg: usize, n_tap: usize, n_part: usize) -> Vec<D> {
+    descriptor_models_ctx(u, n_seg, n_shwsh, n_leg, n_tap, n_part, n_seg.saturating_sub(1))
+}
+
+pub fn descriptor_models_ctx(u: &Universe, n_seg: usize, n_shwsh: usize, n_leg: usize, n_tap: usize, n_part: usize, n_ctx: usize) -> Vec<D> {
     let mut out = vec![];
     for k in ["K1"] {
         out.push(D::Pkh(k.into()));
@@ -587,6 +648,27 @@ pub fn descriptor_models(u: &Universe, n_seg: usize, n_shwsh: usize, n_leg: usiz
     }
     for t in tap.iter().filter(|t| t.size() <= n_tap.max(4) && t.size() + 1 <= n_seg && t.size() >= 2) {
         out.push(D::Tr("KI".into(), vec![(0, guard(t))]));
+    }
+    // one-hole contexts around every fragment (any base type) of up to n_ctx nodes: terms of up to
+    // n_ctx + 8 nodes whose inner fragment is exhaustive
+    {
+        use rayon::prelude::*;
+        let fs = all_fragments(&u.segwit, n_ctx.min(u.segwit.levels.len() - 1));
+        let mut seen: std::collections::BTreeSet<T> = std::collections::BTreeSet::new();
+        let v: Vec<T> = fs.par_iter().flat_map_iter(|f| in_contexts::<Segwitv0>(f)).collect();
+        for t in v {
+            if t.size() > n_seg && seen.insert(t.clone()) {
+                out.push(D::Wsh(t));
+            }
+        }
+        let ft = all_fragments(&u.tap, n_ctx.min(u.tap.levels.len() - 1));
+        let v: Vec<T> = ft.par_iter().flat_map_iter(|f| in_contexts::<Tap>(f)).collect();
+        let mut seen: std::collections::BTreeSet<T> = std::collections::BTreeSet::new();
+        for t in v {
+            if t.size() > n_tap && seen.insert(t.clone()) {
+                out.push(D::Tr("KI".into(), vec![(0, t)]));
+            }
+        }
     }
     // wide thresholds (beyond the node bound, fixed shapes): thresh over 3 and 4 children of the
     // usual kinds and k-of-3 / k-of-4 multisigs, every k. Over- and under-satisfaction, the
